@@ -225,6 +225,9 @@ func (s *Sim) stepReq(st *Step) bool {
 	if !s.alive || st.Req == nil {
 		return false
 	}
+	if st.Req.Proto != "" {
+		return s.stepReqFront(st)
+	}
 	req, aerr, ok := s.build(st.Client, st.Req)
 	if !ok {
 		return false
